@@ -127,7 +127,16 @@ pub struct History {
 }
 
 fn bad_len() -> BoxedStrategy<Vec<u8>> {
-  prop_oneof![Just(vec![]), vec(any::<u8>(), 2..5), vec(any::<u8>(), 32..33)].boxed()
+  // every wrong length near the right one, and lengths that equal it modulo 2^k bytes / bits
+  // (2, 3, 5, 9, 17, 32, 33, 65, 129, 257, 513, 8193, 65537 bytes)
+  prop_oneof![
+    2 => Just(vec![]),
+    4 => vec(any::<u8>(), 2..5),
+    2 => vec(any::<u8>(), 32..34),
+    4 => (prop_oneof![Just(5usize), Just(9), Just(17), Just(31), Just(33), Just(64), Just(65), Just(97), Just(128), Just(129), Just(256), Just(257), Just(258), Just(513), Just(8193), Just(65537)], any::<u8>())
+      .prop_map(|(n, b)| vec![b; n]),
+  ]
+  .boxed()
 }
 
 fn history_strat(tier: Tier) -> BoxedStrategy<History> {
